@@ -22,6 +22,7 @@ def main() -> int:
     t0 = time.time()
     try:
         env.import_han()
+        env.rotate_environment(ctx, job["shard"].get("index", 0))
         mod = importlib.import_module(f"vf.props.{prop.lower()}")
         mod.run(job["shard"], ctx)
     except env.Inconclusive as ex:
